@@ -1,5 +1,6 @@
 import UtilModel.LinkedList.Model
 import UtilModel.Treiber.LinFlow
+import UtilModel.Treiber.LinEmpty
 import UtilModel.Core.Monitor
 /-!
 # LinkedList — the history-level monitor of C12
@@ -12,8 +13,15 @@ import UtilModel.Core.Monitor
   twice or out of thin air);
 * a value returned by `Peek`/`PeekTail` was offered by an invocation before.
 
+* **an "empty" answer only if the list can be empty** (`monEmpty`, `Treiber/LinEmpty.lean`): when
+  `Pop`/`Peek`/`PeekTail` return `(_, false)` or `IsEmpty` returns true although values whose
+  `Push`/`PushFront`/constructor call had *returned* before the call was invoked (and did not overlap
+  a `Reset`) are still unaccounted for — not returned by any `Pop` so far and more of them than there
+  are other `Pop`s in flight; every `Reset` invocation clears the bookkeeping — the history is
+  rejected.
+
 Sound (accepts every observable trace of the model, `Props.C12_obs_linkedlist`) but not the whole
-property: **queue order, real-time order, emptiness results and lost elements are decided by trace
+property: **queue order, real-time order, the remaining emptiness cases and lost elements are decided by trace
 inclusion in the model** — `model.accepts` (the driver) + `Props.lincheck_sound`
 (= `accepts_sound` + `linkedlist_refines_deque`).
 -/
@@ -31,8 +39,17 @@ def dequeFlow : Flow LOp LRes where
   seen := fun op r => match op, r with
     | .peek, .val v true | .peekTail, .val v true => some v
     | _, _ => none
+  wipes := fun op => match op with
+    | .reset => true
+    | _ => false
+  emptyRes := fun op r => match op, r with
+    | .pop, .val _ false | .peek, .val _ false | .peekTail, .val _ false | .isEmpty, .empty true => true
+    | _, _ => false
+  mayTake := fun op => match op with
+    | .pop => true
+    | _ => false
 
 /-- environment observables (`env rlock`/`env runlock`) are ignored by the monitor -/
-def monC12 : ObsMonitor Obs (FlowSt LOp) := (monFlow dequeFlow).comapOpt Obs.toH
+def monC12 : ObsMonitor Obs (FlowSt LOp × EmpSt LOp) := (monContainer dequeFlow).comapOpt Obs.toH
 
 end UtilModel.LinkedList
